@@ -51,6 +51,11 @@ func ModelAdd(pre *sandbox.Snap, args []string) *AddModel {
 			continue
 		}
 		if InGoit(c) {
+			if _, isFile := pre.Files["w/"+c]; !isFile && !pre.Dirs["w/"+c] {
+				m.Unknown = append(m.Unknown, a) // does not exist: refusing the command is legitimate
+				m.ArgClasses = append(m.ArgClasses, "unknown")
+				continue
+			}
 			m.ArgClasses = append(m.ArgClasses, "inside-goit")
 			continue // must stage nothing
 		}
